@@ -81,7 +81,7 @@ def expect(tables, s):
 
 
 def run(chk):
-    build, oracle, tables = emucheck.setup(chk, extra_units=("chan",))
+    build, oracle, tables = emucheck.setup(chk, extra_units=("chan", "guards", "sys", "taskev", "dispatch"))
     chk.assumptions = ["pairs the models deliberately ignore (6t[ 6t], PBs PBS: action IGN) are not push/pop events and are outside the property",
                        "the documented value of an event is the PCF label of the value it pushes; corpus/C08/documented.json pins the "
                        "mapping of the pinned tree, so that swapping two table entries is a violation while renumbering states is not"]
